@@ -96,13 +96,13 @@ def build(ctx):
     foreach_pieces(ctx)
     for fn, exp in (('fe_derive', [r'postcondition\.2', r'precondition']), ('fe_offset_sched', [r'postcondition\.3']),
                     ('fe_offset_tail', [r'postcondition\.3']), ('c17_foreach_partition', [r'assertion\.5', r'precondition\.3'])):
-        units.append(Unit('for_each_n.' + fn, 'intwp', 'specs/c17_foreach.c', fn, timeout=120, expect=exp,
+        units.append(Unit('for_each_n.' + fn, 'intwp', 'specs/c17_foreach.c', fn, timeout=300, expect=exp,
                           replay=replay_args('fe') if fn == 'fe_derive' else None))
     mapper_pieces(ctx)
     insts = INSTS if ctx.tier == 'thorough' else QUICK_INSTS
     for t, uu, sg in insts:
         d = inst_defines(t, uu, sg)
-        common = dict(defines=d, inst=t, timeout=120, signed_wrap=True, nonprop_cls=['overflow', 'conversion'])
+        common = dict(defines=d, inst=t, timeout=300, signed_wrap=True, nonprop_cls=['overflow', 'conversion'])
         units.append(Unit('ChunkedRange.size', 'intwp', 'specs/c17_mapper.c', 'ChunkedRange_size', expect=[r'postcondition\.1'], **common))
         units.append(Unit('StaticChunkMapper.call', 'intwp', 'specs/c17_mapper.c', 'StaticChunkMapper_call',
                           expect=[r'postcondition\.1', r'postcondition\.2'], replay=replay_args('mapper'), **common))
